@@ -338,7 +338,26 @@ impl Check for IsnIndependence {
             w2.trace.clear();
             Ok(())
         };
+        // with closes: half of the cases first go to a later connection state by a legitimate prelude (run on the first
+        // world, replayed operation by operation on the second)
+        let plan = if with_close && !ctx.legacy_layout { PreludePlan::decode(e, &[6, 1, 1, 1, 1, 1, 1]) } else { PreludePlan { target: 0, closer: 0, write: [0, 0] } };
         let res = (|| -> Result<(), Failure> {
+            let mut pre = vec![];
+            let r1 = run_prelude(&mut w1, &plan, &mut pre);
+            let mut r2 = Ok(());
+            for op in &pre {
+                r2 = w2.apply(op);
+                if r2.is_err() {
+                    break;
+                }
+            }
+            ops.extend(pre);
+            match (r1, r2) {
+                (Ok(()), Ok(())) => {}
+                (Err(f1), Err(f2)) if f1.oracle == f2.oracle && f1.tag == f2.tag => return Ok(()),
+                (Err(f), _) | (_, Err(f)) => return Err(Failure::new("isn_independence", "one_run_fails", format!("prelude: the two runs do not fail alike: [{}/{}] {}", f.oracle, f.tag, f.message))),
+            }
+            compare(&mut w1, &mut w2, "after the prelude")?;
             for _ in 0..nops {
                 let op = gen_op(e, &w1, &cfg, &mut left, &mut excluded);
                 ops.push(op.clone());
